@@ -74,7 +74,7 @@ type Define struct {
 	Uninterpreted bool
 }
 
-var headRe = regexp.MustCompile(`^(func|interface|extern|fparam|define|declare|lemma|inline|constglobal|guard)\s+(.*)$`)
+var headRe = regexp.MustCompile(`^(func|interface|extern|fparam|define|declare|lemma|inline|constglobal|guard|refcount|reflink|reftable|ownfield)\s+(.*)$`)
 var clauseRe = regexp.MustCompile(`^(requires|ensures|panic_ensures|invariant|decreases|lemma)(\[[A-Za-z0-9, ]*\])?\s*(@[A-Za-z0-9_.\-]+)?\s+(.*)$`)
 
 // ParseContracts reads //@ lines from text (comment-only Go or .spec file).
@@ -119,6 +119,21 @@ func ParseContracts(file, text, pkg string, out *ContractSet) error {
 					out.Contracts[contractKey(kind, pkg, name)] = k
 					out.Order = append(out.Order, contractKey(kind, pkg, name))
 				}
+				cur = nil
+			case "refcount", "reflink", "reftable", "ownfield":
+				// ghost accounting rules, e.g. "refcount fidRef.refs [C05]"
+				f := strings.Fields(m[2])
+				parts := strings.SplitN(f[0], ".", 2)
+				if len(parts) != 2 {
+					return fmt.Errorf("%s: bad %s rule", where, m[1])
+				}
+				gr := &GhostRule{Kind: m[1], Pkg: pkg, Type: parts[0], Field: parts[1], Where: where}
+				for _, x := range f[1:] {
+					if strings.HasPrefix(x, "[") {
+						gr.Props = parseProps(x)
+					}
+				}
+				out.GhostRules = append(out.GhostRules, gr)
 				cur = nil
 			case "guard":
 				// guard T.f[props] read <expr over r> write <expr over r>
@@ -395,7 +410,19 @@ func parseGuard(s, pkg, where string) (*Guard, error) {
 	return g, nil
 }
 
+// GhostRule ties ghost accounting to fields of the program:
+//   refcount T.f   atomic adds on the counter adjust $owed[object]
+//   reflink  T.f   storing a reference there hands one owed reference to the link
+//   reftable T.f   map entries hold one reference each
+//   ownfield T.f   the interface value stored there is owned by the object
+type GhostRule struct {
+	Kind, Pkg, Type, Field string
+	Props                  []string
+	Where                  string
+}
+
 type ContractSet struct {
+	GhostRules   []*GhostRule
 	Guards       []*Guard
 	Contracts    map[string]*Contract
 	Order        []string
